@@ -64,6 +64,12 @@ def handleCtf (op : String) (args : List Sexp) : Option Sexp := do
       pure (exceptToSexp varsToSexp (ctfAncestors (← parseGraph g) (← varOf? v)))
   | "ancestral_set_after", [g, c, r] =>
       pure (exceptToSexp varsToSexp (ancestralSetAfter (← parseGraph g) (← varsOf? c) (← varOf? r)))
+  | "cond_in_ancestral_set", [g, c, r] =>
+      pure (exceptToSexp ofNats (condInAncestralSet (← parseGraph g) (← varsOf? c) (← varOf? r)))
+  | "merge_common", [_, ss] =>
+      pure (tagged "ok" [setsToSexp (mergeCommon (← setsOf? ss))])
+  | "merge_bidirected", [g, ss] =>
+      pure (tagged "ok" [setsToSexp (mergeBidirected (← parseGraph g) (← setsOf? ss))])
   | "components_from_sets", [g, ss] =>
       pure (tagged "ok" [setsToSexp (componentsFromSets (← parseGraph g) (← setsOf? ss))])
   | "ancestral_components", [g, c, r] =>
